@@ -526,7 +526,7 @@ pub fn c05(seed: u64, budget: u64) -> FOut {
 /// C18: reply cascades terminate
 pub fn c18(seed: u64, budget: u64) -> FOut {
     let mut out = FOut::default();
-    out.rule = "pairs and triples of real instances put into arbitrary mutual-knowledge states (alive / suspect / down / superseded identity; active, idle or defunct themselves) by seeded apply_many / leave / identity changes, renewable or not, notify_down_members on/off; timers frozen; one initial datagram of every kind is injected and all resulting datagrams are delivered (random order) until the network is empty; more than 2000 deliveries = a storm; then seeded single-instance histories (300 calls, large member lists, small packets) on which every delivered datagram with k member updates must cause at most (k + 1) * num_indirect_probes + 1 new datagrams. distinct = distinct (states, initial datagram) pairs".into();
+    out.rule = "pairs and triples of real instances put into arbitrary mutual-knowledge states (alive / suspect / down / superseded identity; active, idle or defunct themselves) by seeded apply_many / leave / identity changes, renewable or not, notify_down_members on/off; timers frozen; one initial datagram of every kind is injected and all resulting datagrams are delivered (random order) until the network is empty; more than 2000 deliveries = a storm; then seeded single-instance histories (300 calls, large member lists, small packets) on which every delivered datagram must cause at most k * num_indirect_probes + 1 new datagrams, k = member updates it carries about the receiver's own address (+1 for a TurnUndead); in particular at most one for a datagram that says nothing about the receiver. distinct = distinct (states, initial datagram) pairs".into();
     let mut g = G::new(seed ^ 0xC18);
     for _run in 0..budget {
         let n = 2 + g.below(2) as usize;
@@ -601,30 +601,40 @@ pub fn c18(seed: u64, budget: u64) -> FOut {
             out.samples.push(J::s(format!("n={n} renew={renew} initial {msg:?}: {deliveries} deliveries, kinds {:?}", sim.kinds_sent)));
         }
     }
-    // the per-delivery bound of theorem C18_delivery_fanout_bound on single-instance histories (large
-    // member lists, small packets, truncated Feeds, refutations): one delivered datagram with k
-    // member updates causes at most (k + 1) * num_indirect_probes + 1 new datagrams
+    // the per-delivery bound of theorem C18_delivery_fanout_sharp on single-instance histories (large
+    // member lists, small packets, truncated Feeds, refutations): one delivered datagram with k member updates
+    // about the receiver's own address (plus one if it is a TurnUndead) causes at most k * num_indirect_probes + 1 new datagrams
     for h in 0..(budget / 3).max(3) {
         let hs = seed.wrapping_mul(7919).wrapping_add(h);
         let mut hit: Option<J> = None;
         crate::falsify::history(hs, 300, |_, _| {}, |pre, input, effs, _o, _post, _rep| {
             if let Input::Data(b) = input {
                 let sends = effs.iter().filter(|e| matches!(e, Eff::Send(..))).count() as u128;
+                // k: member updates about the receiver's own address; plus one for a TurnUndead
                 let mut k = 0u128;
                 let mut cur = &b[..];
-                if crate::vid::dec_header(&mut cur).is_ok() && cur.len() >= 2 {
-                    let cnt = u16::from_be_bytes([cur[0], cur[1]]);
-                    cur = &cur[2..];
-                    for _ in 0..cnt {
-                        if crate::vid::dec_member(&mut cur).is_err() {
-                            break;
-                        }
+                if let Ok(h) = crate::vid::dec_header(&mut cur) {
+                    if matches!(h.message, foca::Message::TurnUndead) {
                         k += 1;
                     }
+                    if cur.len() >= 2 {
+                        let cnt = u16::from_be_bytes([cur[0], cur[1]]);
+                        cur = &cur[2..];
+                        for _ in 0..cnt {
+                            match crate::vid::dec_member(&mut cur) {
+                                Ok(m) => {
+                                    if m.id().a == pre.identity.a {
+                                        k += 1;
+                                    }
+                                }
+                                Err(_) => break,
+                            }
+                        }
+                    }
                 }
-                let bound = (k + 1) * pre.cfg.num_indirect_probes + 1;
+                let bound = k * pre.cfg.num_indirect_probes + 1;
                 if sends > bound {
-                    hit = Some(J::s(format!("history seed {hs}: {sends} datagrams sent on one delivery carrying {k} updates (bound {bound}, num_indirect_probes {}): {input:?}", pre.cfg.num_indirect_probes)));
+                    hit = Some(J::s(format!("history seed {hs}: {sends} datagrams sent on one delivery that carries {k} updates about the receiver's own address / TurnUndead (bound {bound}, num_indirect_probes {}): {input:?}", pre.cfg.num_indirect_probes)));
                     return false;
                 }
             }
